@@ -2,3 +2,4 @@
 #![allow(dead_code, unused)]
 pub mod ordctl;
 pub mod recctl;
+pub mod sinkctl;
